@@ -49,7 +49,6 @@ Import ListNotations.
 """
 
 KNOWN_F9 = "sac-target-interval-restarts-each-train-call"
-KNOWN_DQN = "dqn-target-interval-rounded-to-multiple-of-n-envs"
 
 
 # ---------------------------------------------------------------- (a) polyak_update on tensor lists
@@ -491,18 +490,18 @@ def oracle_run(cfg, impl, flags, gs, actor, structural):
     idx = [i for i, f in enumerate(flags) if f]
     a = cfg["algo"]
     if a == "DQN":
-        # from the property text: one update every `tui` environment steps counted across sub-environments, i.e. whenever the number of
-        # environment steps taken so far passes a multiple of tui (at most one update per vectorised step)
+        # from the property text: one update every `tui` environment steps counted across sub-environments.  The counter advances n_envs at a
+        # time, so the closest admissible cadence is: every gap between consecutive updates (and from the start to the first update), measured
+        # in environment steps, lies in (tui - n_envs, tui] - as close to tui as the vector step allows, never later - or equals n_envs when
+        # n_envs >= tui; and no due update is missing at the end of the run
         n, tui = cfg["n_envs"], cfg["tui"]
-        want = [k for k in range(len(flags)) if ((k + 1) * n) // tui > (k * n) // tui]
-        if idx != want:
-            period = max(tui // n, 1)
-            rounded = [k for k in range(len(flags)) if (k + 1) % period == 0]
-            if tui % n != 0 and n < tui and idx == rounded:
-                probs.append((KNOWN_DQN, f"DQN target_update_interval={tui} with {n} envs: updates after vectorised steps {[i + 1 for i in idx][:8]} = every {period * n} environment steps "
-                                         f"({len(idx)} updates in {len(flags) * n} environment steps; every {tui} steps gives {len(want)}): the interval is rounded down to a multiple of n_envs"))
-            else:
-                probs.append(("oracle-dqn-update-instants", f"updates after vectorised steps {[i + 1 for i in idx]}, expected whenever the env-step count passes a multiple of {tui} ({n} envs): {[k + 1 for k in want]}"))
+        pts = [0] + [(i + 1) * n for i in idx]
+        gaps = [b_ - a_ for a_, b_ in zip(pts, pts[1:])]
+        ok_gap = (lambda g: g == n) if n >= tui else (lambda g: tui - n < g <= tui)
+        tail = len(flags) * n - pts[-1]
+        if not all(ok_gap(g) for g in gaps) or tail >= (n if n >= tui else tui) or len(set(gaps)) > 1:
+            probs.append(("oracle-dqn-update-instants", f"updates after vectorised steps {[i + 1 for i in idx][:12]} ({n} envs): gaps {gaps[:12]} environment steps, "
+                                                        f"allowed: constant, in ({tui - n}, {tui}]" + (f" (= {n} since n_envs >= interval)" if n >= tui else "") + f"; {tail} steps after the last update"))
     elif a == "SAC":
         tui = cfg["tui"]
         ok = all(b - c == tui for c, b in zip(idx, idx[1:])) and (not idx or idx[0] < tui) and (len(flags) - (idx[-1] if idx else -tui) <= tui if flags else True)
@@ -599,12 +598,7 @@ def main():
         hist["closed_form_checked"] += int(cfg["train_freq"] != "episode" and not cfg.get("total2"))
         mflags = list(vals[ri])
         f9 = [p for p in orc if p[0] == KNOWN_F9]
-        kd = [p for p in orc if p[0] == KNOWN_DQN]
-        other = [p for p in orc if p[0] not in (KNOWN_F9, KNOWN_DQN)]
-        if kd:
-            hist["dqn_rounded_runs"] = hist.get("dqn_rounded_runs", 0) + 1
-            if hist["dqn_rounded_runs"] == 1:
-                chk.violation(KNOWN_DQN, kd[0][1], {"run": cfg, "flags": flags}, found_input=True)
+        other = [p for p in orc if p[0] != KNOWN_F9]
         if f9:
             hist["f9_runs"] += 1
             if hist["f9_runs"] == 1:
@@ -651,7 +645,7 @@ def replay(path):
         mflags = common.coq_eval_many("C08_replay", HEADER, [model_expr(cfg, flags, gs)])[0]
         orc = oracle_run(cfg, im, flags, gs, actor, structural)
         print(json.dumps({"flags": flags, "model_flags": mflags, "train_calls": gs, "oracle": orc[:10]}, indent=1))
-        return 1 if [p for p in orc if p[0] not in (KNOWN_F9, KNOWN_DQN)] or list(mflags) != flags else 0
+        return 1 if [p for p in orc if p[0] != KNOWN_F9] or list(mflags) != flags else 0
     c = d["polyak_case"]
     im = run_polyak(c)
     orc = oracle_polyak(c, im)
